@@ -96,6 +96,11 @@ class TypeCase:
         d.update(kw)
         return d
 
+    def coll_suffix(self):
+        if not self.collision:
+            return ''
+        return ':root-not-default-collision' if self.root_asserted else ':root-name-collision'
+
     def model_name(self, py_name):
         if py_name == self.py_root and py_name not in [b[0] for b in self.branches]:
             return self.root[0]
@@ -129,7 +134,10 @@ def check_listing(ctx, tc):
             ok = False
         elif listed[name] != plain(bt):
             if not extra and listed[name] == whole:
-                ctx.mismatch('C13:list_entrypoints:root-name-collides-with-branch',
+                # Tezos has no name for the root here (default is a branch): the invented one collides.  If Tezos does fix the
+                # root's name (default) the clash is a different, more serious class.
+                ctx.mismatch('C13:list_entrypoints:root-name-collides-with-branch' if not tc.root_asserted else
+                             'C13:list_entrypoints:root-not-default:collides-with-branch',
                              'parameter %s: the name pytezos gives to the whole parameter (%r) is also the annotation of a branch; the branch of type %s '
                              'is listed with the type of the whole parameter' % (michelson(T), name, plain(bt)), tc.case(kind='list'))
                 tc.collision = True
@@ -175,7 +183,7 @@ def decompose(ctx, tc, obj, full, best, kind, case):
     """to_parameters() of a section value whose model value is `full`; the pair must denote `full`."""
     T = tc.T
     vc = value_class(tc, best)
-    coll = ':root-name-collision' if tc.collision else ''
+    coll = tc.coll_suffix()
     try:
         params = obj.to_parameters()
         e_py, a_json = params['entrypoint'], params['value']
@@ -212,7 +220,7 @@ def check_split(ctx, tc, v, best):
     if params is None:
         return False
     vc = value_class(tc, best)
-    coll = ':root-name-collision' if tc.collision else ''
+    coll = tc.coll_suffix()
     try:
         back = terms.pval(pt, tc.cls.from_parameters(params).to_micheline_value())
     except Exception as e:   # noqa
@@ -234,7 +242,7 @@ def check_join(ctx, tc, e, a, full, best):
     if e_py is None or (tc.collision and e_py in (tc.root[0], getattr(tc.cls, 'root_name', None))):
         ctx.skip('join: the whole parameter has no separate listed name (reported as root-name-collides-with-branch)')
         return True
-    coll = ':root-name-collision' if tc.collision else ''
+    coll = tc.coll_suffix()
     kind = 'root' if e == tc.root[0] else 'branch'
     try:
         obj = tc.cls.from_parameters({'entrypoint': e_py, 'value': terms.value_json(plain(tc.etype[e]), a)})
